@@ -10,24 +10,9 @@ CLAIMED = {
  'C01': dict(cat='proof', ref='DESIGN.md §4 C01',
    text='Every function of the merge layer (merge, mergeMap, mergeMapMap, mergeList, mergeListList, mergeListDelete, mergeListMatch, match*, and the pop*/has* helpers, with filterList inlined from its real body) is proved, for all trees and all map iteration orders, to return exactly mergeF/mergeErr/matchS of the spec library, which is written from the documented merge rules; the recursive call is used through its contract, so layer chains of any length follow by composition. Ownership obligations prove that no value is merged into two places (list $match fan-out).',
    note='Assumed: deepClone returns an equal tree (trusted contract); mergeF is characterised by one spec axiom (it satisfies its defining equations); finite-map cardinality and rank axioms; partial correctness (termination is C08); value semantics of trees backed by the ownership obligations.'),
- 'C02': dict(cat='proof', ref='DESIGN.md §4 C02',
-   text='Ownership and frame obligations over MergeDocument, mergePatchMatch, mergeDocs, mergeFile, MergeFile(Layers): the data of a layer document is never handed to merge (which embeds and mutates its source) for more than one target, no stored tree is consumed without being declared, and only Parser.docs, Document.Data and Document.Parents are written. The per-target result is the C01 contract of merge; the pattern used for target selection is matchS (proved for match).',
-   note='The target-selection function itself (parents/AllParents/findMatches: which documents are selected) has no functional contract yet - not claimed; Assumed: deepClone returns an equal, unshared tree; the ownership analysis is a flow-sensitive abstract interpretation written for this task (trusted).'),
- 'C07': dict(cat='proof', ref='DESIGN.md §4 C07',
-   text='validate/validateMap/validateList/validateString are proved to fail exactly on trees containing a marker ($required or $ followed by a lowercase letter, in keys or values); outputDocument is proved to emit only finalize(v) of candidates v that passed validate after hiding (site assertion noMarker(v2) at the finalizeOutput call, and the emit/candidates structure as a postcondition); the $required strip of list merging is part of the C01 contract of mergeListList.',
-   note='Assumed: utf8string/unicode.IsLower modelled by str.len/str.at and isLowerRune with ASCII axioms; Document.Process is not under functional contract here (its result is arbitrary in this proof, which is what makes the clause hold for every evaluation); process2Encode validation is checked under C14 when built.'),
- 'C08': dict(cat='other', ref='DESIGN.md §4 C08',
-   text='Zero-annotation sweep over every function of the library and the tool packages: every type assertion without comma-ok, index/slice expression, nil-map write, interface comparison, division and explicit panic gets a no-panic obligation under the path condition; every recursive call inside a call-graph cycle and every non-counting loop gets a termination obligation against the decreases measures in the contracts (depth guard of process1/process2/interpolation, file-chain depth, structural rank).',
-   note='Not proved (listed in the evidence as unclaimed or assumed): termination of normalize*, yamlTranslateNode (external node graphs), Document.AllParents (parent graph), mergeListList->mergeListMatch (needs a size-additive measure), the json decoder loop; nil pointer dereferences are assumed away (API misuse); stdout/exit discipline of the mains and resource exhaustion are not decided here.'),
- 'C09': dict(cat='other', ref='DESIGN.md §4 C09',
-   text='Determinism as a corollary of three families of obligations: (1) every range over a built-in map in the repository is either inside a function whose functional postcondition is proved for every iteration order (mergeMapMap, matchMap, validateMap, diffMapMap, intersectMapMap, requiredMap) or is a single store under an injective function of the loop key; wherever order is observable the code iterates sortedMap, whose ascending-order contract the executor uses; (2) finalizeOutput/finalizeMap are proved to be a function of their input (finF), including colliding keys; (3) no function writes a package-level variable.',
-   note='Not decided: schedules (no thread support in this family; independence of concurrent evaluations is argued from the absence of shared mutable state only); findFile is order-dependent when several files provide one layer name (excluded by the quantifier; listed as an assumed obligation); regexp, the codecs and os.Environ are assumed deterministic.'),
- 'C10': dict(cat='other', ref='DESIGN.md §4 C10',
-   text='Ownership obligations over process1*: the subtree returned by a reference look-up (borrowed from the stored documents) is never passed to merge as a source or destination without a copy, so a $merge cannot change the subtree it refers to, cannot create self-containing structures and cannot make the result depend on evaluation order; matchS including the placeholder rule is proved for match/matchMap.',
-   note='The look-up functions (getPath, getCrossDoc, getPathFromString/List) and the dispatch (what $merge/$replace evaluate to) have no functional contracts yet - not claimed; in-place evaluation of the host map by process1 is a documented design decision (mode inplace) and is not flagged.'),
- 'C11': dict(cat='other', ref='DESIGN.md §4 C11',
-   text='findOutputs/findOutputsMap/findOutputsList are proved to return stripF(obj) and selF(obj) (selection order: map first, children by ascending key; list children then the list), filterOutput* to return hideF(obj), and outputDocument to return exactly emitF(candidates) with the root fallback and per-candidate hiding, for all trees; specs written from the property statement.',
-   note='Stated for trees in which no list holds a map carrying $output together with other keys (the code rejects those with "extra keys" - recorded as finding F15 in DESIGN.md; the error behaviour itself is proved); sortedMap is modelled by its assumed contract (ascending keys, each once); stripF/hideF/finF/selF are characterised by one defining axiom each.'),
+ 'C02': dict(cat='proof', ref='DESIGN.md §4 C02, §10',
+   text='Functional contracts on the real functions, proved for all heaps: mergeDocs gives the target mergeF(old data, layer body) and appends it to the parents of the layer document; PopMapValue; parents/AllParents/allParents compute exactly the stored documents (in stream order) whose ID is in the transitive-parent ID set ancIDs; findMatches prefers matching parents over matching documents anywhere; mergePatchMatch ($match absent / null: append a new document / pattern: every match merged, none: ErrNoMatchFound) and MergeDocument are proved to merge exactly the selected documents, each with the layer body as it was on entry, to leave every other document and the document order untouched, and to fail only if a target rejects the merge. The representation invariant wfDocs (stored documents distinct, non-nil, allocated) is an inductive invariant of MergeDocument, mergeFile, MergeFile and loadFile, which covers arbitrary histories of calls. Ownership obligations prove that the layer data is never shared between targets.',
+   note='ancIDs is characterised by one spec axiom (least set closed under "parent ID or ancestor of a parent"); termination of AllParents (acyclic parent graph) and the preconditions of MergeFileLayers (freshness of the documents of a whole file chain) are not proved (unclaimed); deepClone is an assumed contract; the ownership analysis is trusted tool code.'),
  'C03': dict(cat='other', ref='DESIGN.md §4 C03',
    text='Proved on the real functions: parentsFromFilename implements the filename rule exactly (fewer than two dot-separated parts: ErrInvalidFilename; two: no parent; more: the single parent is the existing file of the layer formed by all but the last two parts, and a missing layer is ErrMissingFile, never silently skipped); globFiles only returns matches with the pattern dot count (the wildcard does not cross dots); loadFileAndParents returns the requested file last, after everything its parents contributed, and its recursion is bounded (file-chain depth, C08); MergeFile (bkl -P) leaves no $parent directive in the documents it merges.',
    note='NOT covered: the priority directive > symlink > filename in file.parents and the $parent value forms in parentsFromDirective (they depend on nil-versus-empty slices, which the model does not distinguish; such comparisons are unknown booleans, so nothing is claimed about them); the order of several parents and of several CLI inputs; renaming invariance. ASSUMED: findFile, isStdin, ext and path/filepath are uninterpreted (the file system is outside the contracts).'),
